@@ -192,4 +192,10 @@ def R4_response(ctx):
         ctx.bad("search-err-arm", "no path for a search Err found in create_initial_output", b.where())
 
 
-RULES = [R1_decision_table, R2_loop_exits, R3_route_or_error, R4_response]
+def R_graph_roles(ctx):
+    """the graph the property quantifies over is loaded with the file/count arguments in their roles (shared with C15.R3a)"""
+    from props.C15 import roles_rule
+    roles_rule(ctx, "C05.R5")
+
+
+RULES = [R1_decision_table, R2_loop_exits, R3_route_or_error, R4_response, R_graph_roles]
